@@ -16,6 +16,7 @@ package convert
 //@   frame_only
 //@   requires (forall ((j Int)) (! (=> (and (trig j) (<= 0 j) (< j (Slice.len types))) (wf_ty (ty_at types j))) :pattern ((trig j))))
 //@   fresh result.1 when (not (= (Slice.ptr result.1) 0))
+//@   ensures[assumed] wf_result: (or (= result.0 $G<cty.NilType>) (wf_ty result.0))
 //@   ensures[C09] in_loop 2 count: (= (Slice.len result.1) (Slice.len types))
 //@   ensures[C09] in_loop 2 nil_when_equal: (forall ((j Int)) (! (=> (and (trig j) (<= 0 j) (< j (Slice.len types)) (ty_eq (ty_at types j) result.0)) (= (select (select $H<Arr<Func>> (Slice.ptr result.1)) (+ (Slice.off result.1) j)) nil.Func)) :pattern ((trig j))))
 //@   loop 3 invariant (forall ((j Int)) (! (=> (and (trig j) (<= 0 j) (< j $i) (ty_eq (ty_at types j) wantType)) (= (select (select $H<Arr<Func>> (Slice.ptr conversions)) (+ (Slice.off conversions) j)) nil.Func)) :pattern ((trig j))))
@@ -31,10 +32,31 @@ package convert
 //@   frame_only
 //@   fresh result.1 when (not (= (Slice.ptr result.1) 0))
 //
+// unifyObjectTypesToMap (C09): on success every conversion slot holds the conversion FROM that input type TO
+// the unified map type (the one GetConversion / GetConversionUnsafe answers for exactly that pair, in that
+// order), or is empty when the input already equals the result. GetConversion* are assumed to be functions
+// of the two types (conv_fn).
 //@ func convert.unifyObjectTypesToMap
-//@   tags C20
+//@   tags C20 C09
 //@   frame_only
 //@   fresh result.1 when (not (= (Slice.ptr result.1) 0))
+//@   let n (Slice.len types)
+//@   requires (forall ((j Int)) (! (=> (and (trig j) (<= 0 j) (< j (Slice.len types))) (and (wf_ty (ty_at types j)) (is_obj_ty (ty_at types j)))) :pattern ((trig j))))
+//@   ensures[C09] slots: (=> (not (= result.0 $G<cty.NilType>)) (and (= (Slice.len result.1) n) (forall ((j Int)) (! (=> (and (trig j) (<= 0 j) (< j n)) (let ((cv (select (select $H<Arr<Func>> (Slice.ptr result.1)) (+ (Slice.off result.1) j)))) (ite (ty_eq (ty_at types j) result.0) (= cv nil.Func) (= cv (conv_fn (ty_at types j) result.0 unsafe))))) :pattern ((trig j))))))
+//@   let atys_wf (and (slice.ok atys) (forall ((j Int)) (! (=> (and (trig j) (<= 0 j) (< j (Slice.len atys))) (wf_ty (select ($at<Arr<cty.Type>> (Slice.ptr atys)) (+ (Slice.off atys) j)))) :pattern ((trig j)))))
+//@   loop 1 invariant atys_wf
+//@   loop 2 invariant atys_wf
+//@   loop 3 invariant (and (= (Slice.len conversions) n) (< (Slice.ptr conversions) 0) (= (Slice.off conversions) 0))
+//@   loop 3 invariant (forall ((j Int)) (! (=> (and (trig j) (<= $i j) (< j n)) (= (select (select $H<Arr<Func>> (Slice.ptr conversions)) j) nil.Func)) :pattern ((trig j))))
+//@   loop 3 invariant (forall ((j Int)) (! (=> (and (trig j) (<= 0 j) (< j $i)) (let ((cv (select (select $H<Arr<Func>> (Slice.ptr conversions)) j))) (ite (ty_eq (ty_at types j) retTy) (= cv nil.Func) (= cv (conv_fn (ty_at types j) retTy unsafe))))) :pattern ((trig j))))
+//
+//@ func convert.GetConversion
+//@   trusted
+//@   ensures (= result (conv_fn in out false))
+//
+//@ func convert.GetConversionUnsafe
+//@   trusted
+//@   ensures (= result (conv_fn in out true))
 //
 //@ func convert.unifyTupleTypes
 //@   tags C20
